@@ -1,6 +1,10 @@
 use std::collections::HashSet;
 
-use crate::{Enum, Object, model::__InputValue, registry};
+use crate::{
+    Context, Enum, Object,
+    model::__InputValue,
+    registry::{self, is_visible},
+};
 
 /// A Directive can be adjacent to many parts of the GraphQL language, a
 /// __DirectiveLocation describes one such possible adjacencies.
@@ -137,12 +141,18 @@ impl<'a> __Directive<'a> {
 
     async fn args(
         &self,
+        ctx: &Context<'_>,
         #[graphql(default = false)] include_deprecated: bool,
     ) -> Vec<__InputValue<'a>> {
         self.directive
             .args
             .values()
             .filter(|input_value| include_deprecated || !input_value.deprecation.is_deprecated())
+            .filter(|input_value| is_visible(ctx, &input_value.visible))
+            .filter(|input_value| {
+                self.visible_types
+                    .contains(registry::MetaTypeName::concrete_typename(&input_value.ty))
+            })
             .map(|input_value| __InputValue {
                 registry: self.registry,
                 visible_types: self.visible_types,
